@@ -23,6 +23,9 @@ pub struct Mode {
     pub hooked: bool,
     pub pin: bool,
     pub failpoints: Option<String>,
+    /// plain binary under `ptdelay`: threads are held at the channel operations, at the start of
+    /// the search thread and at the standard library's entry points for standard output
+    pub ptdelay: bool,
 }
 
 pub fn wellformed_move(t: &str) -> bool {
@@ -98,6 +101,10 @@ pub fn run_session(bin: &PathBuf, mode: &Mode, roots: &[History], seed: u64, sid
     let mut opts = SpawnOpts::default();
     if mode.pin {
         opts.pin_cpu = Some((sid % 16) as usize);
+    }
+    if mode.ptdelay {
+        opts.ptdelay = Some((*rng.pick(&[500u32, 1500, 4000]), seed.wrapping_mul(17).wrapping_add(sid)));
+        opts.ptset = crate::bb::PtSet::Both;
     }
     if let Some(fp) = &mode.failpoints {
         opts.env.push(("WALLEYE_VERIF_FP".into(), format!("{};seed={};prob=70", fp, seed.wrapping_mul(31).wrapping_add(sid))));
@@ -270,7 +277,7 @@ pub fn run_parallel<T: Send>(threads: usize, n: usize, f: impl Fn(usize) -> T + 
 
 pub fn run(tier: Tier, seed: u64) -> i32 {
     let mut run = Run::new("C03", tier, seed, "exploration");
-    run.rule = "evaluation = one `go` sent to the real binary in a UCI session (history recorded at the client boundary: send events before writing, receive events stamped when read). Sessions: position commands from oracle-built histories (startpos/FEN + legal move lists, non-terminal), go parameters from a grid of clock values (absent, 0, negative, -10^18, 1, 99..3000; huge values for the side not to move; unknown tokens mixed in; planned slice <= 150 ms), chains of 1..8 (quick) / 1..30 (thorough) go without a new position. Checked per go: exactly one bestmove line before the next readyok boundary, long-algebraic spelling, legality in the oracle-tracked current position, promotion letter iff promoting. Schedules: plain binary 16 and 48 engines in parallel, plain binary pinned to one CPU per engine, hooked binary with seeded failpoint delays at six pre-emptible points of the two threads, whose internal event log is checked offline (FIFO/exactly-once between search_send and io_recv, printed move = last received, every sent move legal); info-burst sessions: mate-in-one roots, on which the search prints about a hundred info lines within a millisecond or two, with slices of 1-4 ms so that bestmove is printed while the burst is in flow (exactly one well-formed legal bestmove line each); pipelined sessions on the plain binary: the whole script (positions, go chains with plans <= 30 ms, isready) written without waiting for replies - in one write, line by line, or in pieces of 1..40 bytes that cut lines in two - and ended by nothing, quit or end of input; checked offline: the bestmove/readyok lines appear in exactly the order of the go/isready lines, every bestmove legal in the tracked position. Non-trivial = every go; distinct by (mode, position, go line, session)".into();
+    run.rule = "evaluation = one `go` sent to the real binary in a UCI session (history recorded at the client boundary: send events before writing, receive events stamped when read). Sessions: position commands from oracle-built histories (startpos/FEN + legal move lists, non-terminal), go parameters from a grid of clock values (absent, 0, negative, -10^18, 1, 99..3000; huge values for the side not to move; unknown tokens mixed in; planned slice <= 150 ms), chains of 1..8 (quick) / 1..30 (thorough) go without a new position. Checked per go: exactly one bestmove line before the next readyok boundary, long-algebraic spelling, legality in the oracle-tracked current position, promotion letter iff promoting. Schedules: plain binary 16 and 48 engines in parallel, plain binary pinned to one CPU per engine, plain binary under ptrace delay injection (ptdelay: a thread arriving at a channel send/try_recv, at the drop of a channel end, at its own first instruction or at one of the standard library's entry points for standard output is held there for up to 0.5-4 ms while the other thread runs on), hooked binary with seeded failpoint delays at six pre-emptible points of the two threads, whose internal event log is checked offline (FIFO/exactly-once between search_send and io_recv, printed move = last received, every sent move legal); info-burst sessions: mate-in-one roots, on which the search prints about a hundred info lines within a millisecond or two, with slices of 1-4 ms so that bestmove is printed while the burst is in flow (exactly one well-formed legal bestmove line each); pipelined sessions on the plain binary: the whole script (positions, go chains with plans <= 30 ms, isready) written without waiting for replies - in one write, line by line, or in pieces of 1..40 bytes that cut lines in two - and ended by nothing, quit or end of input; checked offline: the bestmove/readyok lines appear in exactly the order of the go/isready lines, every bestmove legal in the tracked position. Non-trivial = every go; distinct by (mode, position, go line, session)".into();
     run.assumptions = vec![
         "a missing answer is a violation only when the process has died or its search thread is gone (/proc/<pid>/task); a watchdog expiry with a live search thread is inconclusive".into(),
         "a 'panicked' line on stderr that does not cost the answer is counted and handed to C07, it is not a C03 refuter".into(),
@@ -293,12 +300,15 @@ pub fn run(tier: Tier, seed: u64) -> i32 {
     let roots = session_roots(seed, tier.pick(150, 1500));
     let (steps, max_chain) = (tier.pick(6, 12), tier.pick(8, 30));
     let mut plan: Vec<(Mode, usize, usize)> = Vec::new(); // mode, sessions, parallelism
-    plan.push((Mode { name: "plain_par16".into(), hooked: false, pin: false, failpoints: None }, tier.pick(16, 160), 16));
-    plan.push((Mode { name: "plain_par48".into(), hooked: false, pin: false, failpoints: None }, tier.pick(48, 240), 48));
-    plan.push((Mode { name: "plain_pinned".into(), hooked: false, pin: true, failpoints: None }, tier.pick(16, 160), 16));
-    plan.push((Mode { name: "hooked_nofp".into(), hooked: true, pin: false, failpoints: None }, tier.pick(8, 64), 16));
+    plan.push((Mode { name: "plain_par16".into(), hooked: false, pin: false, failpoints: None, ptdelay: false }, tier.pick(16, 160), 16));
+    plan.push((Mode { name: "plain_par48".into(), hooked: false, pin: false, failpoints: None, ptdelay: false }, tier.pick(48, 240), 48));
+    plan.push((Mode { name: "plain_pinned".into(), hooked: false, pin: true, failpoints: None, ptdelay: false }, tier.pick(16, 160), 16));
+    if bb::ptdelay_tool(&plain).is_some() {
+        plan.push((Mode { name: "plain_ptdelay".into(), hooked: false, pin: false, failpoints: None, ptdelay: true }, tier.pick(12, 96), 16));
+    }
+    plan.push((Mode { name: "hooked_nofp".into(), hooked: true, pin: false, failpoints: None, ptdelay: false }, tier.pick(8, 64), 16));
     for (i, fp) in FAILPOINT_SETS.iter().enumerate() {
-        plan.push((Mode { name: format!("hooked_fp{}", i), hooked: true, pin: i % 3 == 2, failpoints: Some(fp.to_string()) }, tier.pick(6, 64), 16));
+        plan.push((Mode { name: format!("hooked_fp{}", i), hooked: true, pin: i % 3 == 2, failpoints: Some(fp.to_string()), ptdelay: false }, tier.pick(6, 64), 16));
     }
     let mut all_sigs: BTreeMap<String, u64> = BTreeMap::new();
     let mut unanswered_all: Vec<(String, String, u128)> = Vec::new();
